@@ -95,6 +95,9 @@ pub struct IoFault {
     pub kind: Hostile,
     #[serde(default)]
     pub sticky: bool,
+    /// only calls whose path contains this substring count (and can be hit)
+    #[serde(default)]
+    pub path_contains: Option<String>,
 }
 
 /// Rates of benign completions, per 256.
@@ -227,6 +230,7 @@ struct Inner {
     next_fd: u64,
     benign: Benign,
     faults: Vec<IoFault>,
+    fault_seen: Vec<u32>,
     sticky: Vec<(Call, Hostile)>,
     cur_op: usize,
     rng: Rng,
@@ -362,24 +366,38 @@ impl Inner {
 
     /// One step: bumps counters, enforces the step budget, and returns the hostile completion
     /// scheduled for this call, if any.
-    fn step(&mut self, call: Call) -> Option<Hostile> {
+    fn step(&mut self, call: Call, path: &[u8]) -> Option<Hostile> {
         self.stats.steps += 1;
         self.op_steps += 1;
         if self.op_steps > self.step_budget {
             std::panic::panic_any(BudgetExceeded);
         }
-        let nth = self.per_op_calls[call.idx()];
         self.per_op_calls[call.idx()] += 1;
         if let Some((_, h)) = self.sticky.iter().find(|(c, _)| *c == call) {
             return Some(*h);
         }
+        if self.faults.is_empty() {
+            return None;
+        }
         let cur = self.cur_op;
-        if let Some(f) = self
-            .faults
-            .iter()
-            .find(|f| f.op == cur && f.call == call && f.nth == nth)
-        {
-            let (k, st) = (f.kind, f.sticky);
+        let mut hit: Option<(Hostile, bool)> = None;
+        for (fi, f) in self.faults.iter().enumerate() {
+            if f.op != cur || f.call != call {
+                continue;
+            }
+            if let Some(sub) = &f.path_contains {
+                let sb = sub.as_bytes();
+                if !path.windows(sb.len().max(1)).any(|w| w == sb) {
+                    continue;
+                }
+            }
+            let seen = self.fault_seen[fi];
+            self.fault_seen[fi] += 1;
+            if seen == f.nth && hit.is_none() {
+                hit = Some((f.kind, f.sticky));
+            }
+        }
+        if let Some((k, st)) = hit {
             if st {
                 self.sticky.push((call, k));
             }
@@ -441,6 +459,7 @@ impl SimFs {
                 next_fd: 3,
                 benign: Benign::quiet(),
                 faults: vec![],
+                fault_seen: vec![],
                 sticky: vec![],
                 cur_op: 0,
                 rng: Rng::new(0),
@@ -465,6 +484,7 @@ impl SimFs {
     pub fn set_policy(&self, benign: Benign, faults: Vec<IoFault>) {
         let mut i = self.inner.borrow_mut();
         i.benign = benign;
+        i.fault_seen = vec![0; faults.len()];
         i.faults = faults;
     }
 
@@ -485,6 +505,9 @@ impl SimFs {
         i.op_steps = 0;
         i.step_budget = step_budget;
         i.sticky.clear();
+        for x in i.fault_seen.iter_mut() {
+            *x = 0;
+        }
     }
 
     /// Ends the operation and records its call profile.
@@ -708,7 +731,7 @@ impl Backend for SimFs {
         let _g = Guard::new();
         let mut i = self.inner.borrow_mut();
         let what = || format!("{} {}", path.display(), flags(spec));
-        if let Some(h) = i.step(Call::Open) {
+        if let Some(h) = i.step(Call::Open, path.as_os_str().as_bytes()) {
             return Err(i.hostile(Call::Open, h, what));
         }
         let key = match i.resolve(path) {
@@ -802,7 +825,12 @@ impl Backend for SimFs {
         let _g = Guard::new();
         let mut i = self.inner.borrow_mut();
         let blen = buf.len();
-        let hostile = i.step(Call::Read);
+        let fpath: Vec<u8> = if i.faults.is_empty() {
+            Vec::new()
+        } else {
+            i.fds.get(&fd).map(|f| f.path.clone()).unwrap_or_default()
+        };
+        let hostile = i.step(Call::Read, &fpath);
         let (data, pos, can_read, last_eintr, path) = match i.fds.get(&fd) {
             Some(f) => (f.data.clone(), f.pos, f.read, f.last_eintr, f.path.clone()),
             None => return Err(ebadf()),
@@ -886,7 +914,12 @@ impl Backend for SimFs {
         let _g = Guard::new();
         let mut i = self.inner.borrow_mut();
         let blen = buf.len();
-        let hostile = i.step(Call::Write);
+        let fpath: Vec<u8> = if i.faults.is_empty() {
+            Vec::new()
+        } else {
+            i.fds.get(&fd).map(|f| f.path.clone()).unwrap_or_default()
+        };
+        let hostile = i.step(Call::Write, &fpath);
         let (data, pos, can_write, last_eintr, path) = match i.fds.get(&fd) {
             Some(f) => (f.data.clone(), f.pos, f.write, f.last_eintr, f.path.clone()),
             None => return Err(ebadf()),
@@ -959,7 +992,12 @@ impl Backend for SimFs {
     fn seek(&self, fd: u64, pos: SeekFrom) -> io::Result<u64> {
         let _g = Guard::new();
         let mut i = self.inner.borrow_mut();
-        let hostile = i.step(Call::Seek);
+        let fpath: Vec<u8> = if i.faults.is_empty() {
+            Vec::new()
+        } else {
+            i.fds.get(&fd).map(|f| f.path.clone()).unwrap_or_default()
+        };
+        let hostile = i.step(Call::Seek, &fpath);
         let (len, cur, path) = match i.fds.get(&fd) {
             Some(f) => (
                 f.data.as_ref().map(|d| d.borrow().len() as u64).unwrap_or(0),
@@ -1005,7 +1043,12 @@ impl Backend for SimFs {
     fn set_len(&self, fd: u64, len: u64) -> io::Result<()> {
         let _g = Guard::new();
         let mut i = self.inner.borrow_mut();
-        let hostile = i.step(Call::SetLen);
+        let fpath: Vec<u8> = if i.faults.is_empty() {
+            Vec::new()
+        } else {
+            i.fds.get(&fd).map(|f| f.path.clone()).unwrap_or_default()
+        };
+        let hostile = i.step(Call::SetLen, &fpath);
         let (data, can_write, path) = match i.fds.get(&fd) {
             Some(f) => (f.data.clone(), f.write, f.path.clone()),
             None => return Err(ebadf()),
@@ -1041,7 +1084,7 @@ impl Backend for SimFs {
         let _g = Guard::new();
         let mut i = self.inner.borrow_mut();
         let what = || format!("{}", path.display());
-        if let Some(h) = i.step(Call::Metadata) {
+        if let Some(h) = i.step(Call::Metadata, path.as_os_str().as_bytes()) {
             return Err(i.hostile(Call::Metadata, h, what));
         }
         let r = i.resolve(path).and_then(|k| i.meta_of(&k));
@@ -1057,7 +1100,7 @@ impl Backend for SimFs {
         let _g = Guard::new();
         let mut i = self.inner.borrow_mut();
         let what = || format!("{}", path.display());
-        if let Some(h) = i.step(Call::ReadDir) {
+        if let Some(h) = i.step(Call::ReadDir, path.as_os_str().as_bytes()) {
             return Err(i.hostile(Call::ReadDir, h, what));
         }
         let key = match i.resolve(path) {
@@ -1107,7 +1150,7 @@ impl Backend for SimFs {
         let _g = Guard::new();
         let mut i = self.inner.borrow_mut();
         let what = || format!("{}", path.display());
-        if let Some(h) = i.step(Call::CreateDirAll) {
+        if let Some(h) = i.step(Call::CreateDirAll, path.as_os_str().as_bytes()) {
             return Err(i.hostile(Call::CreateDirAll, h, what));
         }
         let bytes = path.as_os_str().as_bytes();
@@ -1159,7 +1202,7 @@ impl Backend for SimFs {
         let _g = Guard::new();
         let mut i = self.inner.borrow_mut();
         let what = || format!("{}", path.display());
-        if let Some(h) = i.step(Call::RemoveFile) {
+        if let Some(h) = i.step(Call::RemoveFile, path.as_os_str().as_bytes()) {
             return Err(i.hostile(Call::RemoveFile, h, what));
         }
         let key = match i.resolve(path) {
@@ -1201,7 +1244,7 @@ impl Backend for SimFs {
         let _g = Guard::new();
         let mut i = self.inner.borrow_mut();
         let what = || format!("{}", path.display());
-        if let Some(h) = i.step(Call::RemoveDirAll) {
+        if let Some(h) = i.step(Call::RemoveDirAll, path.as_os_str().as_bytes()) {
             // a failing recursive removal has usually removed part of the tree already
             if let Ok(key) = i.resolve(path) {
                 let kids = i.subtree(&key);
